@@ -679,10 +679,37 @@ def search(ctx, hints, broken):
     if r and r["signature"] not in sigs:
       sigs.add(r["signature"])
       fails.append(r)
+  for k in range(ctx.n(24, 240)):   # the other endpoints on the same kind of request: request data untouched (fit, evaluation, best assignments)
+    inp = gen_endpoint(rng, endpoint="gp")
+    which = ["hyperopt", "ei", "best"][k % 3]
+    n += 1
+    try:
+      r2 = U.run_other_endpoint(inp, which)
+    except Exception as e:
+      continue   # the request could not even be built for that endpoint: nothing was handed over
+    if not r2["request_unchanged"]:
+      sig = f"C15:endpoint:{which}:request data modified"
+      if sig not in sigs:
+        sigs.add(sig)
+        fails.append(dict(signature=sig, what=f"endpoint {which}: the caller's request data were modified at {r2['request_diff']}", input=dict(kind="other-endpoint", which=which, **inp),
+                          observed=r2["request_diff"], expected="request unchanged", oracle="deep snapshot before / after the call"))
   return dict(evaluations=n, failures=fails, oracle="plain-Python list bookkeeping of expected data; deep snapshots of caller-owned objects")
 
 
+def replay_other(inp):
+  inp = dict(inp)
+  which = inp.pop("which")
+  inp.pop("kind", None)
+  r2 = U.run_other_endpoint(inp, which)
+  if r2["request_unchanged"]:
+    return None
+  return dict(signature=f"C15:endpoint:{which}:request data modified", what=f"endpoint {which}: the caller's request data were modified at {r2['request_diff']}",
+              input=dict(kind="other-endpoint", which=which, **inp), observed=r2["request_diff"], expected="request unchanged", oracle="deep snapshot before / after the call")
+
+
 def replay(ctx, payload):
+  if isinstance(payload.get("input"), dict) and payload["input"].get("kind") == "other-endpoint":
+    return replay_other(payload["input"])
   inp = dict(payload["input"])
   kind = inp.pop("kind")
   return oracle(kind, inp)
